@@ -21,7 +21,11 @@ func init() {
 			c10R4(c, "C10.R4")
 			c10R5(c, "C10.R5")
 			c10R6(c, "C10.R6")
+			// safety half of the statement ("no page an open reader references is reusable"): pending pages become
+			// free only through the release path, and the free set is replaced only by the pending-aware reload
+			ruleFreeSetEntry(c, "C10.R7")
 		},
+		CHA: func(c *Ctx) { ruleFreeSetEntry(c, "C10.R7") },
 	})
 }
 
